@@ -167,6 +167,7 @@ structure EnvAgree (e1 e2 : Env) : Prop where
   strptime : e1.strptime = e2.strptime
   zoneName : e1.zoneName = e2.zoneName
   fileTime : e1.fileTime = e2.fileTime
+  timeFormat : e1.timeFormat = e2.timeFormat
   path : e1.path = e2.path
 
 def Sim (st st' : St) : Prop := eraseKV st.ml = eraseKV st'.ml ∧ st.flags = st'.flags
@@ -464,10 +465,13 @@ theorem eval_sim {e1 e2 : Env} (ha : EnvAgree e1 e2) (root : Msg) (e : Expr) :
         | none => exact ⟨rfl, h⟩
         | some t => exact tail t d
     all_goals
-      rw [ha.fileTime]
-      rcases e2.fileTime _ with _ | ⟨t, s⟩
+      rw [ha.fileTime, ha.timeFormat, ha.path]
+      rcases e2.fileTime _ with _ | sb
       · exact ⟨rfl, h⟩
-      · exact tail t s
+      · dsimp only
+        rcases e2.timeFormat _ with _ | s
+        · exact ⟨rfl, h⟩
+        · exact tail _ s
   | header lno names p =>
     intro part m st st' h
     simp only [eval]
@@ -545,7 +549,7 @@ theorem eval_sim {e1 e2 : Env} (ha : EnvAgree e1 e2) (root : Msg) (e : Expr) :
   | exec lno si bo argv => intro part m st st' h; simp only [eval]; exact exprAppend_sim ha _ h _
   | addHeader lno k v => intro part m st st' h; simp only [eval]; exact exprAppend_sim ha _ h _
 
-theorem envAgree_flip (env : Env) : EnvAgree (flipDry env) env := ⟨rfl, rfl, rfl, rfl, rfl, rfl, rfl, rfl⟩
+theorem envAgree_flip (env : Env) : EnvAgree (flipDry env) env := ⟨rfl, rfl, rfl, rfl, rfl, rfl, rfl, rfl, rfl⟩
 
 theorem dryrun_same (env : Env) (root : Msg) (e : Expr) (part : Nat) (m : Msg) (st : St) :
     (eval (flipDry env) root e part m st).1 = (eval env root e part m st).1 ∧
